@@ -31,7 +31,8 @@ WANTED = [
     "MINIDUMP_UNLOADED_MODULE", "VS_FIXEDFILEINFO", "GUID", "MINIDUMP_THREAD",
     "MINIDUMP_EXCEPTION_STREAM", "MINIDUMP_EXCEPTION", "MINIDUMP_MEMORY_INFO",
     "MINIDUMP_HANDLE_OBJECT_INFORMATION", "MINIDUMP_HANDLE_DESCRIPTOR", "MINIDUMP_HANDLE_DESCRIPTOR_2",
-    "MINIDUMP_THREAD_INFO",
+    "MINIDUMP_THREAD_INFO", "MINIDUMP_CRASHPAD_INFO", "MINIDUMP_MODULE_CRASHPAD_INFO_LINK",
+    "MINIDUMP_MODULE_CRASHPAD_INFO", "MINIDUMP_SIMPLE_STRING_DICTIONARY_ENTRY", "MINIDUMP_ANNOTATION",
 ]
 SCALARS = {"u8": 1, "i8": 1, "u16": 2, "i16": 2, "u32": 4, "i32": 4, "u64": 8, "i64": 8, "u128": 16}
 
@@ -135,6 +136,15 @@ def main():
     if [v for (_, v) in oi] != list(range(len(oi))):
         die("MINIDUMP_HANDLE_OBJECT_INFORMATION_TYPE is no longer the contiguous range 0..n")
 
+    def assoc_const(struct, name):
+        m = re.search(rf"impl {struct}\s*\{{([^}}]*)\}}", code, flags=re.S)
+        if not m:
+            die(f"impl {struct} not found")
+        c = re.search(rf"pub const {name}: u16 = (0x[0-9a-fA-F_]+|\d+);", m.group(1))
+        if not c:
+            die(f"{struct}::{name} not found")
+        return int(c.group(1).replace("_", ""), 0)
+
     lines = [
         "/-",
         "  GENERATED by translators/layouts.py from minidump-common/src/format.rs — do not edit.",
@@ -152,6 +162,9 @@ def main():
         f"def CV_SIGNATURE_ELF : Nat := {cv['Elf']}",
         "/-- `MINIDUMP_HANDLE_OBJECT_INFORMATION_TYPE::from_u32 v` is `Some` iff `v < OBJECT_INFO_TYPE_COUNT` -/",
         f"def OBJECT_INFO_TYPE_COUNT : Nat := {len(oi)}",
+        f"def ANNOTATION_TYPE_INVALID : Nat := {assoc_const('MINIDUMP_ANNOTATION', 'TYPE_INVALID')}",
+        f"def ANNOTATION_TYPE_STRING : Nat := {assoc_const('MINIDUMP_ANNOTATION', 'TYPE_STRING')}",
+        f"def ANNOTATION_TYPE_USER_DEFINED : Nat := {assoc_const('MINIDUMP_ANNOTATION', 'TYPE_USER_DEFINED')}",
         "",
     ]
     for name in WANTED:
